@@ -17,6 +17,7 @@ from ..universe import bm_mul, bm_pow
 PID = "C02"
 TECHNIQUE = ("exhaustive enumeration of all ordered unit pairs of the catalogue x {*,/} x operand shapes and of unit "
              "powers, + Hypothesis amounts and generated universes, against an independent dimension/scale model")
+LEVEL_TEXT = ("Exhaustive over all ordered pairs of the 113 predefined + 31 lab units x {*, /} x four operand shapes (each evaluated twice, interleaved) and over unit powers -4..4; generated amounts, number operands and universes (quantized results, ref-less types, equal-scale sibling units). Oracle: independent dimension/scale model. Exploration for the unbounded part.")
 RULE = ("catalogue part: all ordered pairs of the 113 predefined + lab units x {*, /} x operand shapes "
         "{unit.unit, qty.unit, unit.qty, qty.qty} enumerated with probe amounts; every unit ** n, n in -4..4; Hypothesis "
         "draws pairs/powers/number operands with amounts of every kind; universe part: generated universes (quantized "
